@@ -62,11 +62,16 @@ MENU = [
     ('keep-all-opt', 'start: stmt+\n!stmt: X ["=" X] _SEMI | "(" X _SEMI? ")"\nX: "x"\n_SEMI: ";"\n%ignore " "\n', 'x=;()', 7),
     # equal kept symbols in alternatives that are not adjacent; one alias on alternatives that are not adjacent
     ('separated-twins', 'start: decl+\ndecl: "v" X ";" | "c" X "=" val ";" | "l" X ";"\n?val: X -> lit | "(" X ")" -> par | "z" -> lit\nX: "x"\n%ignore " "\n', 'vclx=;(z)', 5),
+    # case-insensitive keyword literals next to a case-sensitive identifier regexp; inputs spell the keywords in other cases
+    ('kw-flags', 'start: "select"i NAME+ "from"i NAME+ ("where"i NAME)?\nNAME: /[a-z]+/\n%ignore " "\n', 'KWF', 0),     # lalr only: under the dynamic lexer a keyword is also a NAME
+    # a cycle of ?rules entered in its middle by an aliased alternative
+    ('calc-neg', 'start: expr\n?expr: term | expr "+" term\n?term: atom | term "*" atom\n?atom: X | "(" expr ")" | "-" atom -> neg\nX: "x"\n%ignore " "\n', 'x+*()-', 5),
     ('kw', 'start: stmt+\nstmt: "if" NAME "then" stmt -> cond | NAME "=" NAME ";" -> assign\nNAME: /[a-c]/\n%ignore " "\n', None, 0),
 ]
 SIGIL_INPUTS = ['$a b;', 'a $b;', '$ab c;$c a;', 'ab $c; $a bc;']
 WORDS_INPUTS = ['move a 1;', 'goto 3 4;', 'wait 10 ab; move ab 10; goto 1 22;', 'wait 7;']
 LONG_INPUTS = ['x ' * 40, '(x) x ' * 750, 'x ' * 2500]
+KWF_INPUTS = ['select a from t', 'SELECT a FROM t', 'Select ab c From c d Where d', 'select x FROM y z where z', 'SELECT a b FROM t u WHERE c']
 KW_INPUTS = ['a=b;', 'if a then b=c;', 'a=b; if c then if a then b=b; c=a;', 'if a then if b then a=c;']
 
 
@@ -169,8 +174,8 @@ def work(item):
         return _run.work(item[1:])
     res = new_res()
     name, gtext, alpha, L = MENU[item[1]]
-    inputs = KW_INPUTS if alpha is None else SIGIL_INPUTS if alpha == 'SIGIL' else WORDS_INPUTS if alpha == 'WORDS' else LONG_INPUTS if alpha == 'LONG' else list(util.strings(alpha, L + (1 if item[2] == 'thorough' else 0)))
-    for parser in ('lalr', 'earley'):
+    inputs = KW_INPUTS if alpha is None else KWF_INPUTS if alpha == 'KWF' else SIGIL_INPUTS if alpha == 'SIGIL' else WORDS_INPUTS if alpha == 'WORDS' else LONG_INPUTS if alpha == 'LONG' else list(util.strings(alpha, L + (1 if item[2] == 'thorough' else 0)))
+    for parser in (('lalr',) if name == 'kw-flags' else ('lalr', 'earley')):
         check_parser(gtext, parser, inputs, res, {'menu': name, 'grammar': gtext, 'tier': item[2]})
     res['counters'] = dict(res['counters'])
     return res
